@@ -22,6 +22,7 @@ package seccomp
 
 import (
 	"fmt"
+	"runtime"
 	"syscall"
 	"unsafe"
 
@@ -63,6 +64,11 @@ func LoadFilter(filter Filter) error {
 		Len:    uint16(len(sockFilter)),
 		Filter: &sockFilter[0],
 	}
+
+	// Both prctl and seccomp act on the calling thread, so the goroutine must not
+	// be moved to another thread between them.
+	runtime.LockOSThread()
+	defer runtime.UnlockOSThread()
 
 	if filter.NoNewPrivs {
 		if err = SetNoNewPrivs(); err != nil {
